@@ -199,12 +199,17 @@ def work(task):
             if ev not in got: bad('string-content-altered/py', 'literal %r not found among parsed strings %r' % (ev, sorted(got)[:4]), v, host)
       if task[1] == 0: samples.append(dict(host=host, evil_strings=EVIL[:8]))
   else:
+    # statements of every .l file of the repository (imported rules are anchored in the file they come from)
+    corpus = set()
+    for lf in glob.glob(os.path.join(impl.REPO, '**', '*.l'), recursive=True):
+      try: corpus |= {x.strip() for x in statement_texts(open(lf).read())}
+      except Exception: pass
     for f in task[1]:
       text = open(f).read()
       for mode in ('PY', 'CPP'):
         o = parsers.parse_with(mode, text, import_root=impl.REPO); stats['parses'] += 1
         if o[0] != 'ok': continue
-        check_spans(o[2]['rule'], text, mode.lower(), os.path.basename(f), stats, bad, imported=True)
+        check_spans(o[2]['rule'], text, mode.lower(), os.path.basename(f), stats, bad, imported=True, corpus=corpus)
     # spans of the generated statements too
   if task[0] == 'noise' and stats['statements']:
     for mode, oo in zip(('py', 'cpp'), o):
@@ -300,7 +305,7 @@ def conjuncts(text):
   return out
 
 
-def check_spans(rules, text, mode, where, stats, bad, imported=False):
+def check_spans(rules, text, mode, where, stats, bad, imported=False, corpus=None):
   stmts = None
   for h in spans(rules, []):
     stats['spans_checked'] += 1
@@ -310,8 +315,7 @@ def check_spans(rules, text, mode, where, stats, bad, imported=False):
       bad('span-not-heritage-aware/%s' % mode, 'span %r carries no position' % str(h)[:60], text, where); continue
     if her[a:b] != str(h):
       bad('span-text-mismatch/%s' % mode, 'heritage[%d:%d]=%r but span text is %r' % (a, b, her[a:b][:60], str(h)[:60]), text, where); continue
-    if imported: continue     # statements of imported files are not re-read here; the literal invariant above is what is checked
-    if stmts is None: stmts = statement_texts(text)
+    if stmts is None: stmts = corpus if corpus is not None else statement_texts(text)
     if her.strip().startswith('@CompileAsUdf('): continue     # rule synthesised by `-->`, it has no source text of its own
     if her.strip() not in {s.strip() for s in stmts} and not any(her.strip() in s for s in stmts):
       bad('span-not-anchored-in-a-statement/%s' % mode, 'heritage %r is not a statement of the program' % her[:80], text, where)
